@@ -7,7 +7,7 @@ from __future__ import annotations
 
 import random
 
-from checks.gen import (Arith, Case, Cast, Col, Der, Func, Item, J, Lit, Scalar, Sel, SetOp, Star, Stmt, Tab, Win, With)
+from checks.gen import (Grp, Arith, Case, Cast, Col, Der, Func, Item, J, Lit, Scalar, Sel, SetOp, Star, Stmt, Tab, Win, With)
 
 
 class Alloc:
@@ -126,14 +126,39 @@ def F_unqualified_join(a, inner):
     return [J("first", Tab(a.t(), alias=a.a())), J("JOIN", Tab(a.t(), alias=a.a()), "on")], [Item(Col(None, "ca")), Item(Col(1, "cb"))]
 
 
+def F_paren_right(a, inner):
+    # a JOIN (b JOIN c ON ..) ON ..
+    g = Grp([J("first", Tab(a.t(), alias=a.a())), J("JOIN", Tab(a.t(), alias=a.a()), "on")])
+    return [J("first", Tab(a.t(), alias=a.a())), J("JOIN", g, "on")], [Item(Col(0, "ca")), Item(Col(1, "cb")), Item(Col(2, "cc"))]
+
+
+def F_paren_left(a, inner):
+    # (a JOIN b ON ..) JOIN c ON ..
+    g = Grp([J("first", Tab(a.t(), alias=a.a())), J("JOIN", Tab(a.t(), alias=a.a()), "on")])
+    return [J("first", g), J("LEFT JOIN", Tab(a.t(), alias=a.a()), "on")], [Item(Col(0, "ca")), Item(Col(1, "cb")), Item(Col(2, "cc"))]
+
+
+def F_paren_only(a, inner):
+    # FROM (a JOIN b ON ..)
+    g = Grp([J("first", Tab(a.t(), alias=a.a())), J("INNER JOIN", Tab(a.t(), alias=a.a()), "on")])
+    return [J("first", g)], [Item(Col(0, "ca")), Item(Col(1, "cb"))]
+
+
+def F_paren_right_derived(a, inner):
+    # a JOIN (b JOIN (subquery) d ON ..) ON ..
+    g = Grp([J("first", Tab(a.t(), alias=a.a())), J("JOIN", Der(inner(a), alias=a.d()), "on")])
+    return [J("first", Tab(a.t(), alias=a.a())), J("JOIN", g, "on")], [Item(Col(0, "cc")), Item(Col(1, "cb")), Item(Col(2, "ca"))]
+
+
 FROM_SHAPES = {
+    "paren_right": F_paren_right, "paren_left": F_paren_left, "paren_only": F_paren_only, "paren_right_derived": F_paren_right_derived,
     "single": F_single, "alias_as": F_alias_as, "alias_noas": F_alias_noas, "schema": F_schema, "schema_alias": F_schema_alias,
     "comma": F_comma, "comma_alias": F_comma_alias, "join_on": F_join_on, "join_noalias": F_join_noalias, "join_using": F_join_using,
     "left_schema": F_left_schema, "cross": F_cross, "full_outer": F_full_outer, "three_join": F_three_join,
     "mixed_comma": F_mixed_comma, "self_join": F_self_join, "derived": F_derived, "derived_noas": F_derived_noas,
     "join_derived": F_join_derived, "derived_join_table": F_derived_join_table, "unqualified_join": F_unqualified_join,
 }
-NESTING_SHAPES = ("derived", "derived_noas", "join_derived", "derived_join_table")
+NESTING_SHAPES = ("derived", "derived_noas", "join_derived", "derived_join_table", "paren_right_derived")
 
 
 def inner_simple(a):
